@@ -11,9 +11,9 @@ package main
 
 import (
 	"fmt"
-	"os"
 	"go/token"
 	"go/types"
+	"os"
 	"sort"
 	"strings"
 
@@ -36,16 +36,16 @@ type lockCallback struct {
 }
 
 type lockResult struct {
-	Accesses  map[string]*lockAccess
-	Callbacks map[string]*lockCallback
-	Edges     map[string]string // "A -> B" -> pos
-	Misc      []Finding
-	Roots     int
-	Closures  int
-	States    int
-	LockOps   int
+	Accesses      map[string]*lockAccess
+	Callbacks     map[string]*lockCallback
+	Edges         map[string]string // "A -> B" -> pos
+	Misc          []Finding
+	Roots         int
+	Closures      int
+	States        int
+	LockOps       int
 	CallbacksSeen int
-	Exhausted bool
+	Exhausted     bool
 }
 
 type lockRule struct {
@@ -356,6 +356,28 @@ func (r *lockRule) OnInstr(e *Engine, st *State, fc *FrameCtx, in ssa.Instructio
 	return false
 }
 
+// isMentioned: some function of the analysed modules calls f or uses it as a value.
+func isMentioned(p *Prog, f *ssa.Function) bool {
+	for _, g := range p.Funcs() {
+		if g == f || !p.InScope(g) {
+			continue
+		}
+		for _, b := range g.Blocks {
+			for _, in := range b.Instrs {
+				for _, op := range in.Operands(nil) {
+					if op == nil || *op == nil {
+						continue
+					}
+					if fn, ok := (*op).(*ssa.Function); ok && (fn == f || fn.Origin() == f) {
+						return true
+					}
+				}
+			}
+		}
+	}
+	return false
+}
+
 func isAnonIface(t types.Type) bool {
 	_, named := t.(*types.Named)
 	return !named
@@ -445,6 +467,7 @@ func runLocksPanic(p *Prog, guards []guardSpec, pkgs map[string]bool, immutable 
 	}
 	lr.scope = func(fn *ssa.Function) bool { return pkgs[PkgOf(fn)] || p.Mods[PkgOf(fn)] }
 	e := NewEngine(p)
+	e.StepOver = true
 	e.Budget = 1500000
 	for _, tf := range immutable {
 		e.Immutable[tf] = true
@@ -499,6 +522,11 @@ func runLocksPanic(p *Prog, guards []guardSpec, pkgs map[string]bool, immutable 
 	// unexported functions never reached
 	for _, f := range p.Funcs() {
 		if pkgs[PkgOf(f)] && !e.Inlined[f] && !done[f] && len(f.Blocks) > 0 && f.Synthetic == "" {
+			// an unexported function that nothing in the (non-test) program mentions is
+			// dead code (kept for the package's own tests): nobody can run it
+			if (f.Object() == nil || !f.Object().Exported()) && f.Parent() == nil && !isMentioned(p, f) {
+				continue
+			}
 			// run them too (conservatively, as roots holding nothing) unless they
 			// are helpers that document a held-lock precondition by only being called
 			// under lock — those were inlined above and are in e.Inlined
